@@ -103,7 +103,9 @@ func (p *PlonkChip) checkPartialProducts(
 		ppStartIdx := i * quotDegreeFactor
 		numeProduct := numerators[ppStartIdx]
 		denoProduct := denominators[ppStartIdx]
-		for j := uint64(1); j < quotDegreeFactor; j++ {
+		// The last chunk is shorter when the number of routed wires is not a multiple of the quotient degree
+		// factor (plonky2 chunks the wires with `chunks(max_degree)`).
+		for j := uint64(1); j < quotDegreeFactor && ppStartIdx+j < uint64(len(numerators)); j++ {
 			numeProduct = glApi.MulExtension(numeProduct, numerators[ppStartIdx+j])
 			denoProduct = glApi.MulExtension(denoProduct, denominators[ppStartIdx+j])
 		}
